@@ -369,6 +369,13 @@ template<typename T> void run_task(Run &run, Cn &cn, const Task &t, bool thoroug
             ks::FamilySpec s = t.spec; s.blocks.push_back(b1);
             ex.static_family(s, t.eps);
         }
+    } else if (t.kind == 6) {
+        // density family (about 1200 segments, several levels) for run-time epsilon 1, 2, 3, 64
+        for (long w = t.first_op; w < 256; w += 16) for (size_t e : {size_t(1), size_t(2), size_t(3), size_t(64)}) {
+            if (run.deadline_passed()) return;
+            ks::FamilySpec s; s.kind = "density"; s.chunks = 1; s.rep = e >= 64 ? 60 : 300; s.width = 4; s.word = w;
+            ex.static_family(s, e);
+        }
     } else if (t.kind == 2) {
         // dynamic: initial states: 0 create_empty; 1.. every array of <= 3 sorted pairs over the 4 keys (repeated keys: later value differs)
         auto keys = ex.dyn_keys();
@@ -421,6 +428,7 @@ int main(int argc, char **argv) {
             if (!thorough && (ty == 0 || ty == 2) && e == 64) continue;
             Task t{}; t.type = ty; t.kind = 1; t.eps = e; t.spec.kind = "blocks"; t.spec.rep = 1; t.spec.blocks = {b0}; tasks.push_back(t);
         }
+        for (int w0 = 0; w0 < 16; ++w0) { Task t{}; t.type = ty; t.kind = 6; t.first_op = w0; tasks.push_back(t); }
         for (int first_op = 0; first_op < 12; ++first_op) {
             { Task t{}; t.type = ty; t.kind = 2; t.D = D; t.first_op = first_op; t.init_id = 0; tasks.push_back(t); }
             for (int init = 1; init < 35; ++init) { Task t{}; t.type = ty; t.kind = 2; t.D = D - 2; t.first_op = first_op; t.init_id = init; tasks.push_back(t); }
@@ -442,7 +450,7 @@ int main(int argc, char **argv) {
     });
     mc::Run::EvidenceExtra ev;
     ev.states_counter = "static_indexes_created"; ev.transitions_counter = "static_searches_checked"; ev.nontrivial_counter = "arrays_with_2plus_distinct_keys"; ev.eval_counter = "dynamic_steps_checked";
-    ev.rule = "static part: every non-decreasing array of length 1.." + std::to_string(N) + " over four palettes for int32/int64/uint32/uint64, run-time epsilon in {1,2,3,64,4096}, all alphabet queries, plus the two-block grammar for epsilon {1,3,64}; create must return NULL exactly when the reserved value is present. "
+    ev.rule = "static part: every non-decreasing array of length 1.." + std::to_string(N) + " over four palettes for int32/int64/uint32/uint64, run-time epsilon in {1,2,3,64,4096}, all alphabet queries, plus the two-block grammar for epsilon {1,3,64} and the density family (about 1200 segments, several levels) for epsilon {1,2,3,64}; create must return NULL exactly when the reserved value is present. "
               "dynamic part: every history of length " + std::to_string(D) + " of insert_or_assign/erase over 4 colliding keys x 2 values from create_empty, length " + std::to_string(D - 2) + " from every create() of <= 3 sorted pairs, and length " + std::to_string(Ddeep) +
               " from a deep state (create of 600 pairs + 585 inserts, so that the next insert merges the buffer into level 4), every three-stage script over a three-level state (create of 5000 pairs in level 5, two buffer flushes into level 4, an insert/erase/no-op on two bulk-loaded keys before, between and after the flushes), and short histories from a huge state (create of 2^21+1 pairs, which lands in a level that owns a PGM-index with the default parameters, followed by 40 consecutive erases); after every step find, lower_bound + iterator_next, begin + iterator_next to exhaustion and size are compared with std::map. Only functions of cpgm.h are called. "
               "States = static indexes built (dynamic steps are reported as evaluations); non-trivial = at least two distinct keys.";
